@@ -38,7 +38,7 @@ class C07(Prop):
     quick_budget = 1500
     thorough_budget = 40000
     extractors = ["E2"]
-    all_branches = (["energy:refused", "k:circuit_open", "k:cache_hit", "k:agent_exc", "k:gated_success", "k:gated_neither",
+    all_branches = (["nest:2", "nest:3", "nest:4", "nest:all-issued", "energy:refused", "k:circuit_open", "k:cache_hit", "k:agent_exc", "k:gated_success", "k:gated_neither",
                      "k:raised", "token", "cache:shrunk", "cache:replace-or-evict"]
                     + [f"act:{a}" for a in ("SUCCESS", "BLOCKED", "FAILURE", "SKIPPED", "ERROR")])
     assumptions = [
@@ -69,6 +69,9 @@ class C07(Prop):
             if i % 7 == 3:
                 yield self._real_case(rng)
                 continue
+            if i % 9 == 4 and (i // 9) % 2 == 0:
+                yield self._nest_case(rng)
+                continue
             if i % 9 == 4:
                 v = VERDICTS + ["exc", "weird"]
                 lines = [cfg_line(rng.choice(GATES), False, 5, 60_000_000, True, TTL)]
@@ -94,6 +97,8 @@ class C07(Prop):
                     if rng.random() < 0.1:
                         p = str(rng.randrange(16))     # the special prompt strings
                     lines.append(f"run {p} {z} {y}")
+                elif u < 0.78:
+                    lines.append(self._nest_line(rng, [str(rng.randrange(npr)) for _ in range(rng.choice([2, 2, 3]))], ttl))
                 elif u < 0.9:
                     if rng.random() < 0.25:
                         lines.append("adv " + str(rng.choice(BIG_ADVANCES)))
@@ -107,6 +112,42 @@ class C07(Prop):
             if rng.random() < 0.02:     # malformed stream: both sides must answer bad-op and carry on
                 lines.insert(rng.randrange(1, len(lines) + 1), rng.choice(["run 1 EXECUTE", "bogus", "cfg and 1", "adv", "run"]))
             yield {"lines": lines, "note": "random"}
+
+    def _nest_line(self, rng, prompts, ttl=TTL):
+        """overlapping requests on the current loop: request i+1 is issued while an agent of request i is busy"""
+        toks = ["nest"]
+        for p in prompts:
+            if rng.random() < 0.6:
+                z, y = rng.choice(["EXECUTE", "PERMIT", "BLOCK", "FAILURE"]), rng.choice(["PERMIT", "PERMIT", "BLOCK", "DEFER"])
+            else:
+                z, y = rng.choice(VERDICTS + ["exc", "weird"]), rng.choice(VERDICTS + ["exc", "weird"])
+            d = rng.choice([0, 0, 0, 1, 1_000_000] + ([ttl - 1, ttl, ttl + 1] if ttl > 1 else [2]))
+            toks += [p, z, y, rng.choice("eeaaEA"), str(d)]
+        return " ".join(toks)
+
+    def _nest_case(self, rng):
+        """a nest of overlapping requests in the middle of a history, then every prompt of it asked again (within the
+        TTL, at its boundary, after it), the same prompt overlapping itself, nests on a tripped / half-open breaker"""
+        ttl = rng.choice([TTL, TTL, 1_000_000, 5])
+        breaker = rng.random() < 0.4
+        budget = rng.choice(BUDGETS + [None] * 12)
+        lines = [cfg_line(rng.choice(GATES), breaker, rng.choice([1, 2, 3]), rng.choice([1_000_000, 60_000_000]),
+                          rng.random() < 0.9, ttl, budget)]
+        pool = [str(rng.randrange(20, 26)) for _ in range(4)]
+        if rng.random() < 0.3:
+            pool[rng.randrange(4)] = "u" + str(rng.randrange(2))
+        for _ in range(rng.choice([0, 1, 2])):
+            lines.append(f"run {rng.choice(pool)} {rng.choice(['EXECUTE', 'FAILURE', 'exc'])} {rng.choice(['PERMIT', 'BLOCK'])}")
+        for _ in range(rng.choice([1, 1, 2])):
+            k = rng.choice([2, 2, 2, 3, 4])
+            ps = [rng.choice(pool) for _ in range(k)] if rng.random() < 0.4 else rng.sample(pool, k)
+            lines.append(self._nest_line(rng, ps, ttl))
+            if rng.random() < 0.3:
+                lines.append("adv " + str(rng.choice([1, ttl - 1, ttl, 1_000_000, 60_000_000])))
+            order = list(reversed(ps)) if rng.random() < 0.6 else list(ps)
+            for p in order + ([rng.choice(ps)] if rng.random() < 0.3 else []):
+                lines.append(f"run {p} {rng.choice(VERDICTS + ['exc'])} {rng.choice(VERDICTS + ['exc'])}")
+        return {"lines": lines, "note": "overlapping requests, then repeats"}
 
     def _real_case(self, rng):
         """the built-in BioAgent executor / assessor (core/agent.py) on prompts whose verdicts are known, on every
@@ -167,6 +208,20 @@ class C07(Prop):
                                "executor / assessor stub issues a nested request B (3 verdict pairs) on the same loop - re-entrant, or "
                                "from a second thread while the agent waits - and then every prompt is asked again twice",
                        "cases": nest})
+        over = []
+        for g in GATES:
+            for w in "eaEA":
+                for za, ya in itertools.product(VERDICTS + ["exc"], repeat=2):
+                    if w in "EA" and (za, ya) not in (("BLOCK", "PERMIT"), ("EXECUTE", "PERMIT"), ("FAILURE", "BLOCK"), ("exc", "PERMIT")):
+                        continue
+                    for zb, yb in (("EXECUTE", "PERMIT"), ("BLOCK", "BLOCK"), ("FAILURE", "DEFER")):
+                        over.append({"lines": [cfg_line(g, True, 5, 60_000_000, True, TTL),
+                                               f"nest 31 {za} {ya} {w} 0 32 {zb} {yb} e 0",
+                                               "run 32 DEFER DEFER", "run 31 DEFER DEFER", "run 32 PERMIT PERMIT"],
+                                     "note": "exhaustive overlap: A look-up, B look-up .. B store, A store; then B, A, B again"})
+        spaces.append({"name": "overlapping requests on one loop (model: phase history): request A (6 gate logics x 7 x 7 "
+                               "verdicts) during whose executor / assessor call request B (3 verdict pairs) is handled "
+                               "completely - re-entrantly, or by a second thread -, then B, A, B are asked again", "cases": over})
         if tier == "thorough":
             more = []
             for g in GATES:
@@ -184,43 +239,34 @@ class C07(Prop):
     def oracle(self, case, obs, extra):
         out = []
         gate, cache_on = "and", True
-        orig = {}            # prompt token -> verdict of the latest non-cached reply
+        orig = {}            # prompt token -> verdicts a cached reply for it may repeat (its original)
         actual = extra if extra else [(None, None)] * len(obs)
-        for idx, (line, raw) in enumerate(zip(case["lines"], obs)):
-            t = line.split()
-            if t[0] == "cfg" and len(t) in (7, 8, 9):
-                gate, cache_on = (t[1] if t[1] in GATES else "and"), t[5] == "1"
-                orig = {}
-                continue
-            if t[0] == "reenter" and isinstance(actual[idx], dict):
-                self._oracle_reenter(actual[idx], idx, out)
-                continue
-            if t[0] != "run" or len(t) != 4 or raw == "bad-op":
-                continue
-            o = Ob(raw)
-            p = t[1]
-            z, y = actual[idx]       # what the agents really answered on this request (None = not consulted)
+
+        def judge(p, o, z, y, raw, idx, cands):
+            """one reply (the request for prompt p, whose agents returned z / y: 'exc' = raised, None = not consulted).
+            Returns its verdict when it is a reply the agents were consulted for (a possible original)."""
             if o.raised is not None:
                 # nothing came back, so nothing passed; only an *encodable* prompt must always get a reply
                 if not p.startswith("u"):
                     out.append(Violation("run_returns_a_result", "a LoopResult (agent exceptions become blocked ERROR)",
                                          raw, idx))
-                continue
+                return None
             verdict = (o.action, o.success, o.blocked, o.token, o.issuer)
             if o.action == "CIRCUIT_OPEN":
                 if not o.blocked:
                     out.append(Violation("circuit_open_is_blocked", "blocked", raw, idx))
-                continue
+                return None
+            fresh = None
             if o.cached:
                 # cached replies are identical in verdict to the original
                 if not cache_on:
                     out.append(Violation("cached_reply_without_cache", "cached=0", raw, idx))
-                if p not in orig:
+                if not cands:
                     out.append(Violation("cached_reply_has_original", "an earlier non-cached reply for this prompt", raw, idx))
-                elif orig[p] != verdict:
-                    out.append(Violation("cached_verdict_identical", str(orig[p]), str(verdict), idx))
+                elif verdict not in cands:
+                    out.append(Violation("cached_verdict_identical", " or ".join(str(c) for c in cands), str(verdict), idx))
             else:
-                orig[p] = verdict
+                fresh = verdict
                 # judged by the verdicts actually obtained on this request, whatever the budget
                 if not o.blocked and not criterion(gate, z, y):
                     out.append(Violation("unblocked_only_if_gate_satisfied",
@@ -235,6 +281,45 @@ class C07(Prop):
                     out.append(Violation("token_bound_to_this_request", f"token for prompt {p}", raw, idx))
                 if o.issuer != "assessor":
                     out.append(Violation("token_names_assessor", "issuer=assessor", raw, idx))
+            return fresh
+
+        for idx, (line, raw) in enumerate(zip(case["lines"], obs)):
+            t = line.split()
+            if t[0] == "cfg" and len(t) in (7, 8, 9):
+                gate, cache_on = (t[1] if t[1] in GATES else "and"), t[5] == "1"
+                orig = {}
+                continue
+            if raw == "hang":
+                if t[0] == "nest":
+                    out.append(Violation("run_returns_a_result", "every request of the nest comes back", raw, idx))
+                continue
+            if t[0] == "reenter" and isinstance(actual[idx], dict):
+                self._oracle_reenter(actual[idx], idx, out)
+                continue
+            if t[0] == "nest" and isinstance(actual[idx], dict) and raw != "bad-op":
+                # overlapping requests: every reply is judged by ITS OWN prompt and the verdicts ITS OWN agents gave.
+                # Requests complete innermost first; the original of a cached reply for p is a reply the agents were
+                # consulted for on p: the latest before the nest, or one completed earlier in this nest.
+                res, _, stats = raw.partition(" ; ")
+                reps = res.split(" | ")
+                levels = actual[idx]["levels"]
+                fresh = {}
+                for lv, rep in reversed(list(zip(levels, reps))):
+                    if rep == "-":
+                        continue
+                    p = lv["p"]
+                    tag = f"nest request for prompt {p} (executor={lv['z']}, assessor={lv['y']}): {rep}"
+                    f = judge(p, Ob(rep + " ; " + stats), lv["z"], lv["y"], tag, idx, orig.get(p, []) + fresh.get(p, []))
+                    if f is not None:
+                        fresh.setdefault(p, []).append(f)
+                orig.update(fresh)
+                continue
+            if t[0] != "run" or len(t) != 4 or raw == "bad-op":
+                continue
+            z, y = actual[idx]       # what the agents really answered on this request (None = not consulted)
+            f = judge(t[1], Ob(raw), z, y, raw, idx, orig.get(t[1], []))
+            if f is not None:
+                orig[t[1]] = [f]
         return out
 
     def _oracle_reenter(self, info, idx, out):
